@@ -153,7 +153,11 @@ def main():
                 res[which] = asyncio.run(drive_async(obj, case['ops'])) if case['mode'] == 'async' else drive_sync(obj, case['ops'])
             except BaseException as e:  # noqa
                 res[which] = 'crash:' + type(e).__name__ + ': ' + str(e)[:100]
-            res[which + '_log'] = log
+            # finalise the generator object now (its clean-up is part of what is compared)
+            obj = None
+            import gc
+            gc.collect()
+            res[which + '_log'] = list(log)
         out.append(res)
     print(json.dumps(out))
 
